@@ -41,6 +41,73 @@ var swapsAll = map[string]string{
 	"sync":        shimRoot + "vsync",
 	"sync/atomic": shimRoot + "vatomic",
 	"expvar":      shimRoot + "vexpvar",
+	"net/rpc":     shimRoot + "vrpc",
+	"net":         shimRoot + "vnet",
+}
+
+// expose lists function-local variables which the harness must be able to read (they are part of
+// the state of a long-running goroutine): "<func or (*Recv).method>" -> variable names. After the
+// `name := ...` statement which declares one, `vsched.Expose(<receiver>, "name", &name)` is inserted.
+// A listed function or variable which is not found is an error (the tree changed: fail loudly).
+var expose = map[string]map[string][]string{
+	"server": {
+		"(*Cluster).run":         {"missed", "rehashSkipped"},
+		"(*Cluster).electLeader": {"voteCount", "expectVotes"},
+	},
+}
+
+func funcKey(fn *ast.FuncDecl) (key, recv string) {
+	key = fn.Name.Name
+	if fn.Recv != nil && len(fn.Recv.List) == 1 {
+		t := fn.Recv.List[0].Type
+		star := ""
+		if st, ok := t.(*ast.StarExpr); ok {
+			star, t = "*", st.X
+		}
+		if id, ok := t.(*ast.Ident); ok {
+			key = "(" + star + id.Name + ")." + key
+		}
+		if len(fn.Recv.List[0].Names) == 1 {
+			recv = fn.Recv.List[0].Names[0].Name
+		}
+	}
+	return
+}
+
+// exposeLocals performs the insertion for one file; found is updated with "func/var" entries.
+func (r *rewriter) exposeLocals(f *ast.File, want map[string][]string, found map[string]bool) {
+	for _, d := range f.Decls {
+		fn, ok := d.(*ast.FuncDecl)
+		if !ok || fn.Body == nil {
+			continue
+		}
+		key, recv := funcKey(fn)
+		names := want[key]
+		if len(names) == 0 || recv == "" {
+			continue
+		}
+		var out []ast.Stmt
+		for _, st := range fn.Body.List {
+			out = append(out, st)
+			as, ok := st.(*ast.AssignStmt)
+			if !ok || as.Tok != token.DEFINE || len(as.Lhs) != 1 {
+				continue
+			}
+			id, ok := as.Lhs[0].(*ast.Ident)
+			if !ok {
+				continue
+			}
+			for _, n := range names {
+				if n == id.Name {
+					found[key+"/"+n] = true
+					out = append(out, &ast.ExprStmt{X: r.call("Expose", ast.NewIdent(recv),
+						&ast.BasicLit{Kind: token.STRING, Value: strconv.Quote(n)},
+						&ast.UnaryExpr{Op: token.AND, X: ast.NewIdent(n)})})
+				}
+			}
+		}
+		fn.Body.List = out
+	}
 }
 
 func main() {
@@ -431,6 +498,7 @@ func instrAll(repo, dir, out string, mapping map[string]string) error {
 	if len(pkgs) != 1 {
 		return fmt.Errorf("expected one package, got %d", len(pkgs))
 	}
+	exposed := map[string]bool{}
 	p := pkgs[0]
 	if len(p.Errors) > 0 {
 		return fmt.Errorf("package has errors: %v", p.Errors[0])
@@ -443,6 +511,7 @@ func instrAll(repo, dir, out string, mapping map[string]string) error {
 		r := &rewriter{fset: p.Fset, info: p.TypesInfo, skip: map[ast.Node]bool{}, kind: map[ast.Node]string{}, file: path}
 		swapImports(f, swapsAll)
 		astutil.Apply(f, r.pre, r.post)
+		r.exposeLocals(f, expose[dir], exposed)
 		if r.used {
 			astutil.AddNamedImport(p.Fset, f, "vsched", shimRoot+"vsched")
 		}
@@ -451,6 +520,13 @@ func instrAll(repo, dir, out string, mapping map[string]string) error {
 			return err
 		}
 		mapping[path] = dst
+	}
+	for fn, names := range expose[dir] {
+		for _, n := range names {
+			if !exposed[fn+"/"+n] {
+				return fmt.Errorf("expose: local variable %q of %s not found in %s", n, fn, dir)
+			}
+		}
 	}
 	return nil
 }
